@@ -238,7 +238,7 @@ def subs_tags(a, vals):
             tags.add("subs-value-mentions-key")  # a value mentions a name that is being substituted
         if isinstance(v, E) and v.tag == "binary" and v.op in COMPARISONS:
             tags.add("bool-index")
-        if isinstance(v, E) and v.tag == "slice" and a.tag == "cat":
+        if isinstance(v, E) and v.tag == "slice" and any(t == "cat" for t in a.tags()):
             tags.add("cat-slice-value")
         if a.tag == "cat" and k != list(a.inputs)[-1] and list(a.inputs)[-1] in names:
             tags.add("subs-value-mentions-cat-name")  # free name of the value = the Cat's own index name
@@ -430,10 +430,15 @@ class FReduce(Family):
         xt = ["reduce-unrelated-var"] if unrelated else []
         if not is_real(a.out) and op == "add":
             xt.append("reduce-bint-range")
-        if a.tag == "binary" and a.op in ASSOC and (op, a.op) not in DISTRIBUTIVE and not (
-                op == a.op and op in ("max", "min", "and_", "or_")):
-            if a.op != op or any(n not in k.inputs for n in names for k in a.kids):
+        aop = {"truediv": "mul", "sub": "add"}.get(a.op, a.op) if a.tag == "binary" else None  # as normalize sees it
+        if a.tag == "binary" and aop in ASSOC and (op, aop) not in DISTRIBUTIVE and not (
+                op == aop and op in ("max", "min", "and_", "or_")):
+            if aop != op or any(n not in k.inputs for n in names for k in a.kids):
                 xt.append("reduce-over-nondistributive-binary")
+        if op in ("max", "min"):
+            sub = set(a.tags())
+            if sub & {"binary:mul", "binary:truediv", "unary:reciprocal"} and sub & {"unary:neg", "binary:sub", "unary:log"}:
+                xt.append("minmax-mul-negative")  # outside the (max|min, mul) carrier of non-negative data
         if a.tag == "stack" and any(n not in k.inputs for n in names for k in a.kids):
             xt.append("stack-part-missing-reduced-var")
         return E("reduce", op, kids, "{0}.reduce(ops.%s, %s)" % (op, rv), inputs, out,
